@@ -49,4 +49,10 @@ CHECKS = {
   "text": "Pairs of generated structures (independent, or a structure and its own copy with the same or fresh chain ids) are separated by a bounding-box gap from 25.001 A up to the limit of the PDB coordinate field (A pushed to the opposite corner), in both file orders; the union's records restricted to a part must equal the part run alone (1e-9) and no separation may raise. Fixed finding F4 (>1000 A) is a permanent regression case.",
   "note": "Separation is a bounding-box gap along one axis (>= 25 A between nearest atoms, the statement's sufficient condition). Parts are always separated by a TER record. Sampled.",
  },
+ "C01": {
+  "level": "exploration",
+  "technique": "property-based testing (Hypothesis) against an independent reference model (census of ionizable sites computed from the PDB text) + exhaustive pass over the ligand/ion library",
+  "text": "For generated structures and option settings the reported groups of every conformation must be in bijection (by file position and kind) with an independent census written from the statement (side-chain sites by residue+atom name, termini by the streaming chain-start rule, disulfides by the S-S distance rule), carry the tabulated model pKa, report bridged cysteines as non-titrating 99.99; the parsed summary rows of the .pka file and the average conformation must show each group exactly once; hetero groups must carry the model pKa/charge configured for their type (parameter file read by an independent reader) and each of the 19 library ligands / 21 ion names must yield its chemically expected group types.",
+  "note": "Trusts vlib/census.py (about 80 lines), vlib/pkaparse.py and the hand-written ligand library with its expected group types. Groups discarded through covalent coupling are required to be absent from the summary (design of the shipped parameters). Multi-conformation inputs only with identical composition (C08 covers the rest). Open finding F5 excluded by signature.",
+ },
 }
